@@ -96,6 +96,8 @@ LOOKUP_SCAFFOLD = [('S', LOOKUP_CELLS), ('L', {f'{c}{r}': val(r, k) for r in ran
 
 
 def classify(keys):
+    if None in keys:
+        return 'with-blanks'
     if all(a < b for a, b in zip(keys, keys[1:])):
         return 'ascending'
     if all(a <= b for a, b in zip(keys, keys[1:])):
@@ -108,6 +110,7 @@ def classify(keys):
 def value_pos(keys, v):
     if v in keys:
         return 'present'
+    keys = [k for k in keys if k is not None] or [v]
     if v < min(keys):
         return 'below'
     if v > max(keys):
@@ -121,6 +124,8 @@ def expected_lookup(d, keys, v):
     func, mode = d['func'], d['mode']
     if mode == 'unjudged':
         return None
+    if None in keys and mode != 'exact':
+        return None   # a key column with blank gaps: only exact matching is fixed (a blank is never the key)
     if mode == 'exact':
         hits = [i for i, k in enumerate(keys) if k == v]
         if not hits:
@@ -167,10 +172,13 @@ def run_lookup_ov(cases, stats):
     for i, c in enumerate(cases):
         keys, v = c['keys'], c['v']
         n = len(keys)
-        ov = [(f'A{r + 1}', k) for r, k in enumerate(keys)] + [('K1', v)] + [(('L', f'A{r + 1}'), k) for r, k in enumerate(keys)]
+        ov = [(f'A{r + 1}', k) for r, k in enumerate(keys) if k is not None] + [('K1', v)] + \
+             [(('L', f'A{r + 1}'), k) for r, k in enumerate(keys) if k is not None]
         addrs = [a for a, _ in LOOKUP_META[n]]
         outs = S.run(cls, ov, addrs, stats)
         for (a, d), o in zip(LOOKUP_META[n], outs):
+            if None in keys and 'area' not in d:
+                continue   # blanks inside the key column exist only on sheet L (sheet S holds constants in A1:A4)
             judge_lookup(d, keys, v, o, 'ov', stats, i, vio)
     return vio
 
@@ -506,7 +514,7 @@ def plan(tier, seed):
     th = tier == 'thorough'
 
     def key_cases(maxlen):
-        for alpha, looks in ((NUM_KEYS, NUM_LOOK), (TXT_KEYS, TXT_LOOK)):
+        for alpha, looks in ((NUM_KEYS, NUM_LOOK), (TXT_KEYS, TXT_LOOK), (NUM_KEYS + [None], NUM_LOOK[1:6:2]), (TXT_KEYS[:2] + [None], TXT_LOOK[:2])):
             for n in range(1, maxlen + 1):
                 for keys in itertools.product(alpha, repeat=n):
                     for v in looks:
